@@ -53,7 +53,7 @@ def tasks(tier, seed):
             if iv == 0:
                 ts.append({"kind": "nopings", "iv": iv, "to": to, "name": "nopings/%s" % to})
                 continue
-            traffics = ["none", "at-ping", "at-deadline", "burst", "chatty"] if tier == "quick" else ["none", "at-ping", "at-deadline", "before-ping", "two", "burst", "chatty"]
+            traffics = ["none", "at-ping", "at-deadline", "burst", "chatty", "frag-across"] if tier == "quick" else ["none", "at-ping", "at-deadline", "before-ping", "two", "burst", "chatty", "frag-across"]
             payloads = ["k"] if tier == "quick" else ["k", ""]
             bound = 2 if tier == "quick" else 4
             for payload in payloads:
@@ -132,6 +132,11 @@ def traffic_script(kind, iv, to, silent=False):
         return [(first - 0.25, "data", msg), (first + 0.25, "data", msg)]
     if kind == "two":
         return [(first + (to or 1) - 0.25, "data", msg), (first + 2 * (to or 1), "data", msg)]
+    if kind == "frag-across":
+        # a fragmented message whose first fragment arrives just before a ping instant and whose final fragment arrives after the pong: the
+        # loop is inside one receive call while the ping is sent and answered
+        return [(first - 0.25, "data", R.encode(R.TEXT, b"fr", fin=0)), (first + (to or 1) / 2.0, "data", R.encode(R.CONT, b"ag", fin=1)),
+                (first + iv - 0.25, "data", R.encode(R.BINARY, b"\x01", fin=0)), (first + iv + 0.25, "data", R.encode(R.CONT, b"\x02", fin=1))]
     if kind == "chatty":
         # the peer keeps sending data with gaps shorter than the timeout (whether or not it still answers pings)
         gap = max(0.25, (to or 1) / 2.0)
